@@ -58,7 +58,8 @@ MANIFEST = {
     "code under test - cross-checked in every run at system-call level (strace) by a "
     "completeness audit, and complemented by (a) real kernel short writes under RLIMIT_FSIZE "
     "and (b) strace inject= faults and SIGKILLs around the real volume-to-precomputed, "
-    "compute-scales and convert-chunks processes (sampled call positions); faults inside "
+    "compute-scales and convert-chunks processes, on plain and on SHARDED scales (sampled call "
+    "positions); faults inside "
     "Pillow/nibabel and OS-level reordering after power loss are out of reach.",
     "technique": "runtime fault injection and crash-point enumeration at interposed I/O "
     "calls (Python level), under kernel resource limits (RLIMIT_FSIZE) and at system calls "
